@@ -15,11 +15,7 @@ LEVEL = {"C12": "model_checking"}
 
 
 def viols_of(out):
-    res = []
-    txt = out.replace("\n", " ")
-    for m in re.finditer(r'<<\s*"VIOL",\s*"([^"]+)",\s*(\d+),(.*?)>>\s*(?=<<\s*"(?:VIOL|ACCEPTED|DRIFT)")', txt):
-        res.append((m.group(1), int(m.group(2)), " ".join(m.group(3).split())[:700]))
-    return res
+    return C.parse_viols(out["output"] if isinstance(out, dict) else out)
 
 
 def run_c12(ctx):
